@@ -1,0 +1,226 @@
+//go:build verif && (verif_all || verif_c09)
+// +build verif
+// +build verif_all verif_c09
+
+package gocql
+
+// Verification hooks (build tag `verif`): the REAL Session.routingKeyInfo / Query.GetRoutingKey /
+// Batch.GetRoutingKey path on a connection-less Session whose prepared-statement cache holds a
+// RESULT/PREPARED answer parsed by the real framer, and the real token ring order. Add-only.
+
+import (
+	"errors"
+	"fmt"
+
+	"github.com/gocql/gocql/internal/lru"
+	"github.com/gocql/gocql/internal/streams"
+)
+
+// VerifC09ParsePrepared parses a RESULT/PREPARED frame body with the real framer (protocol proto)
+// and returns the prepared statement as conn.prepareStatement stores it.
+func verifC09ParsePrepared(proto byte, body []byte) (ps *preparedStatment, err error) {
+	fm := newFramer(nil, proto)
+	fm.header = &frameHeader{version: protoVersion(proto | 0x80), op: opResult, length: len(body)}
+	fm.readBuffer = make([]byte, len(body))
+	fm.buf = fm.readBuffer
+	copy(fm.buf, body)
+	fr, err := fm.parseFrame()
+	if err != nil {
+		return nil, err
+	}
+	x, ok := fr.(*resultPreparedFrame)
+	if !ok {
+		return nil, fmt.Errorf("verif: not a prepared result: %T", fr)
+	}
+	return &preparedStatment{id: copyBytes(x.preparedID), request: x.reqMeta, response: x.respMeta}, nil
+}
+
+// VerifC09Schema is the schema metadata the session has cached for one keyspace: the partition
+// key column names per table (what Session.KeyspaceMetadata serves without a control connection).
+type VerifC09Schema struct {
+	Keyspace string
+	Tables   map[string][]string
+	// Rows: instead of a ready-made partition key, the rows of the schema tables for the table's
+	// columns in the order the server returned them; the keyspace metadata is then built by the
+	// real compileMetadata (protocol version = the session's).
+	Rows map[string][]VerifC09ColumnRow
+	// Cass2: Cassandra 2.x style (the table row carries a key_validator, column rows carry
+	// marshal class names); otherwise Cassandra 3.x+ style (kind / position / clustering_order).
+	Cass2 bool
+}
+
+// VerifC09ColumnRow is one row of system_schema.columns / system.schema_columns:
+// kind "p" partition key, "c" clustering, "r" regular; Position = position / component_index.
+type VerifC09ColumnRow struct {
+	Name     string
+	Kind     string
+	Position int
+}
+
+func verifC09Compile(proto byte, schema *VerifC09Schema) *KeyspaceMetadata {
+	const int32Type = "org.apache.cassandra.db.marshal.Int32Type"
+	km := &KeyspaceMetadata{Name: schema.Keyspace}
+	var tables []TableMetadata
+	var columns []ColumnMetadata
+	for tbl, rows := range schema.Rows {
+		tm := TableMetadata{Keyspace: schema.Keyspace, Name: tbl}
+		npk := 0
+		byPos := map[int]string{}
+		for _, r := range rows {
+			cm := ColumnMetadata{Keyspace: schema.Keyspace, Table: tbl, Name: r.Name, ComponentIndex: r.Position}
+			switch r.Kind {
+			case "p":
+				cm.Kind = ColumnPartitionKey
+				npk++
+				byPos[r.Position] = r.Name
+			case "c":
+				cm.Kind = ColumnClusteringKey
+			default:
+				cm.Kind = ColumnRegular
+			}
+			if schema.Cass2 || proto == 1 {
+				cm.Validator = int32Type
+			} else {
+				cm.Validator = "int"
+				cm.ClusteringOrder = "none"
+				if r.Kind == "c" {
+					cm.ClusteringOrder = "asc"
+				}
+			}
+			if proto == 1 && r.Kind != "r" {
+				continue // protocol 1: system.schema_columns has the regular columns only
+			}
+			columns = append(columns, cm)
+		}
+		if schema.Cass2 || proto == 1 {
+			tm.KeyValidator = int32Type
+			if npk > 1 {
+				tm.KeyValidator = "org.apache.cassandra.db.marshal.CompositeType("
+				for i := 0; i < npk; i++ {
+					if i > 0 {
+						tm.KeyValidator += ","
+					}
+					tm.KeyValidator += int32Type
+				}
+				tm.KeyValidator += ")"
+			}
+			tm.Comparator = "org.apache.cassandra.db.marshal.UTF8Type"
+			tm.DefaultValidator = int32Type
+		}
+		if proto == 1 {
+			// protocol 1: the partition key comes from key_aliases (in key order)
+			for i := 0; i < npk; i++ {
+				tm.KeyAliases = append(tm.KeyAliases, byPos[i])
+			}
+		}
+		tables = append(tables, tm)
+	}
+	compileMetadata(int(proto), km, tables, columns, nil, nil, nil, nil, nopLogger{})
+	return km
+}
+
+// VerifC09RoutingSession builds a Session with one up host, a one-connection pool (protocol
+// proto, no socket) and a prepared-statement cache that already holds the server's answer to
+// PREPARE stmt (preparedBody = the RESULT/PREPARED frame body, parsed here by the real framer).
+// Nothing of the routing-key info is pre-computed: Session.routingKeyInfo runs its real code.
+func VerifC09RoutingSession(proto byte, stmt string, preparedBody []byte, schema *VerifC09Schema) (*Session, error) {
+	ps, err := verifC09ParsePrepared(proto, preparedBody)
+	if err != nil {
+		return nil, err
+	}
+	s := &Session{cfg: ClusterConfig{}}
+	s.routingKeyInfoCache.lru = lru.New(8)
+	s.stmtsLRU = &preparedLRU{lru: lru.New(8)}
+	host := &HostInfo{hostId: "verif-c09-host", state: NodeUp}
+	s.ring.hosts = map[string]*HostInfo{host.hostId: host}
+	conn := &Conn{session: s, host: host, streams: streams.New(int(proto)), version: proto}
+	hp := &hostConnPool{session: s, host: host, size: 1, conns: []*Conn{conn}}
+	s.pool = &policyConnPool{session: s, hostConnPools: map[string]*hostConnPool{host.hostId: hp}}
+	done := make(chan struct{})
+	close(done)
+	s.stmtsLRU.add(s.stmtsLRU.keyFor(host.hostId, conn.currentKeyspace, stmt), &inflightPrepare{done: done, preparedStatment: ps})
+	s.schemaDescriber = &schemaDescriber{session: s, cache: map[string]*KeyspaceMetadata{}}
+	if schema != nil && schema.Rows != nil {
+		s.schemaDescriber.cache[schema.Keyspace] = verifC09Compile(proto, schema)
+	} else if schema != nil {
+		km := &KeyspaceMetadata{Name: schema.Keyspace, Tables: map[string]*TableMetadata{}}
+		for tbl, pk := range schema.Tables {
+			tm := &TableMetadata{Keyspace: schema.Keyspace, Name: tbl}
+			for i, name := range pk {
+				tm.PartitionKey = append(tm.PartitionKey, &ColumnMetadata{Keyspace: schema.Keyspace, Table: tbl, Name: name, ComponentIndex: i, Kind: ColumnPartitionKey})
+			}
+			km.Tables[tbl] = tm
+		}
+		s.schemaDescriber.cache[schema.Keyspace] = km
+	}
+	return s, nil
+}
+
+// VerifC09AddPrepared puts the server's answer to PREPARE stmt2 into the session's prepared-statement cache too.
+func VerifC09AddPrepared(s *Session, proto byte, stmt2 string, preparedBody []byte) error {
+	ps, err := verifC09ParsePrepared(proto, preparedBody)
+	if err != nil {
+		return err
+	}
+	done := make(chan struct{})
+	close(done)
+	for id := range s.ring.hosts {
+		s.stmtsLRU.add(s.stmtsLRU.keyFor(id, "", stmt2), &inflightPrepare{done: done, preparedStatment: ps})
+	}
+	return nil
+}
+
+func verifC09ErrClass(err error) string {
+	if err == nil {
+		return ""
+	}
+	if errors.Is(err, ErrNoMetadata) {
+		return "meta"
+	}
+	return "marshal" // whatever Marshal returned (MarshalError or a plain error)
+}
+
+// VerifC09QueryKey: a fresh Query for stmt with the bound values; its routing key
+// (Query.GetRoutingKey) and the keyspace / table the query reports afterwards.
+func VerifC09QueryKey(s *Session, stmt string, vals []interface{}) (key []byte, keyspace, table, errClass string) {
+	q := s.Query(stmt, vals...)
+	k, err := q.GetRoutingKey()
+	if err != nil {
+		return nil, "", "", verifC09ErrClass(err)
+	}
+	return k, q.Keyspace(), q.Table(), ""
+}
+
+// VerifC09BatchKey: a fresh Batch whose FIRST entry is (stmt, vals), optionally followed by an
+// entry of another statement (stmt2, vals2); Batch.GetRoutingKey.
+func VerifC09BatchKey(s *Session, stmt string, vals []interface{}, stmt2 string, vals2 []interface{}) (key []byte, errClass string) {
+	b := s.NewBatch(LoggedBatch)
+	b.Query(stmt, vals...)
+	if stmt2 != "" {
+		b.Query(stmt2, vals2...)
+	}
+	k, err := b.GetRoutingKey()
+	if err != nil {
+		return nil, verifC09ErrClass(err)
+	}
+	return k, ""
+}
+
+// VerifC09RingOrder builds the real token ring (newTokenRing: ParseString of every token string,
+// sort.Sort with token.Less) from hosts owning the given token strings (hostTokens[i] = tokens
+// of host i) and returns the ring's tokens in ring order, printed with token.String().
+func VerifC09RingOrder(partitioner string, hostTokens [][]string) ([]string, error) {
+	hosts := make([]*HostInfo, len(hostTokens))
+	for i, toks := range hostTokens {
+		hosts[i] = &HostInfo{hostId: fmt.Sprintf("verif-c09-h%d", i), tokens: toks, state: NodeUp}
+	}
+	tr, err := newTokenRing(partitioner, hosts)
+	if err != nil {
+		return nil, err
+	}
+	out := make([]string, len(tr.tokens))
+	for i, ht := range tr.tokens {
+		out[i] = ht.token.String()
+	}
+	return out, nil
+}
